@@ -171,6 +171,8 @@ def build(tier, seed):
                  note="default variant, tuple form, String"),
         EnumSpec("DefN", [U("On"), U("Rest", fields=[Field("Box<str>", name="o")], named=True, default=True)], derives=d,
                  note="default variant, single named field, Box<str>"),
+        EnumSpec("DefPre", [U("Red", to_string="RedRed"), U("Other", fields=[Field("String")], default=True)], derives=d, prefix="colour/",
+                 note="enum-level prefix next to a default variant: the captured value is printed verbatim, without the prefix"),
         EnumSpec("DefSer", [U("Gz", serialize=["gz", "gzip"], aci=True), U("Other", fields=[Field("String")], default=True, serialize=["other"]), U("Zs")], derives=d,
                  note="default variant that also carries `serialize` (no to_string): Display must still print the captured value"),
     ]
@@ -182,6 +184,7 @@ def build(tier, seed):
         programs.append(default_program(S[0], "p000", tier, 6, True))
         programs.append(default_program(S[1], "p001", tier, 6, True))
     programs.append(default_program(S[2], "p003", tier, 5 if tier == "quick" else 6, True))
+    programs.append(default_program(S[3], "p004", tier, 5 if tier == "quick" else 6, True))
     programs.append(transparent_program("p002", tier))
     return {
         "programs": programs,
